@@ -431,7 +431,9 @@ impl EvalResult {
 
     pub fn sparql_eq(&self, other: &Self) -> Option<bool> {
         if let (Some(s), Some(o)) = (self.as_value(), other.as_value()) {
+            // values that can not be compared may still be the same RDF term (RDFterm-equal)
             s.sparql_eq(o)
+                .or_else(|| Term::eq(&self.as_term(), other.as_term()).then_some(true))
         } else {
             let s = self.as_term();
             let o = other.as_term();
